@@ -62,49 +62,44 @@ def InRangeList (sel : Object → Bool) (lo hi : Int) (base : Int) : List Object
   | o :: os => InRangeObj sel lo hi base o ∧ InRangeList sel lo hi base os
 end
 
-mutual
-/-- No block is repeated more than once. -/
-def NoRepeatedBlocks : Object → Prop
-  | .block h os => cnt (.block h os) = 1 ∧ NoRepeatedBlocksList os
-  | _ => True
-def NoRepeatedBlocksList : List Object → Prop
-  | [] => True
-  | o :: os => NoRepeatedBlocks o ∧ NoRepeatedBlocksList os
-end
+/-- every instance of a repeated block sits between the block's own lowest and highest offset -/
+theorem block_instance_between (h : BlockHead) (os : List Object) (i : Nat) (hi : i < cnt (.block h os))
+    (hs : (h.repeat_.getD ⟨1, 0⟩).count - 1 < 2 ^ 63) :
+    ownLo h.addressOffset (h.repeat_.getD ⟨1, 0⟩) ≤ h.addressOffset + (i : Int) * strd (.block h os) ∧
+    h.addressOffset + (i : Int) * strd (.block h os) ≤ ownHi h.addressOffset (h.repeat_.getD ⟨1, 0⟩) :=
+  own_between h.addressOffset (h.repeat_.getD ⟨1, 0⟩) i hi hs
 
 mutual
+/-- What the analysis bounds over a range of bases holds at every base in the range. -/
 theorem inRange_of_bounds (sel : Object → Bool) (lo hi : Int) :
-    ∀ (o : Object) (base : Int), NoRepeatedBlocks o → BoundsObj sel lo hi base o → InRangeObj sel lo hi base o
-  | .block h os, base, hn, hb => by
-    unfold NoRepeatedBlocks at hn
+    ∀ (o : Object) (bl bh base : Int), bl ≤ base → base ≤ bh → SmallCounts o →
+      BoundsObj sel lo hi bl bh o → InRangeObj sel lo hi base o
+  | .block h os, bl, bh, base, h1, h2, hs, hb => by
+    unfold SmallCounts at hs
     unfold BoundsObj at hb
     unfold InRangeObj
     intro i hlt
-    have hi0 : i = 0 := by have := hn.1; omega
-    subst hi0
-    have h1 := hb.1 0 (by have := hn.1; unfold cnt at this; simp only [Object.repeat_] at this; omega)
-    refine ⟨?_, ?_⟩
-    · simpa [strd, Object.repeat_] using h1
-    · have : base + h.addressOffset + ((0 : Nat) : Int) * strd (.block h os) = base + h.addressOffset := by
-        simp
-      rw [this]
-      exact inRangeList_of_bounds sel lo hi os _ hn.2 hb.2
-  | .register r, base, hn, hb => by
-    unfold BoundsObj at hb; unfold InRangeObj; exact hb
-  | .command c, base, hn, hb => by
-    unfold BoundsObj at hb; unfold InRangeObj; exact hb
-  | .buffer b, base, hn, hb => by
-    unfold BoundsObj at hb; unfold InRangeObj; exact hb
-  | .ref r, base, hn, hb => by
-    unfold BoundsObj at hb; unfold InRangeObj; exact hb
+    obtain ⟨w1, w2⟩ := block_instance_between h os i hlt hs.1
+    refine ⟨hb.1 base h1 h2 i hlt, ?_⟩
+    exact inRangeList_of_bounds sel lo hi os _ _ _ (by omega) (by omega) hs.2 hb.2
+  | .register r, bl, bh, base, h1, h2, hs, hb => by
+    unfold BoundsObj at hb; unfold InRangeObj; exact fun hf j hj => hb hf base h1 h2 j hj
+  | .command c, bl, bh, base, h1, h2, hs, hb => by
+    unfold BoundsObj at hb; unfold InRangeObj; exact fun hf j hj => hb hf base h1 h2 j hj
+  | .buffer b, bl, bh, base, h1, h2, hs, hb => by
+    unfold BoundsObj at hb; unfold InRangeObj; exact fun hf => hb hf base h1 h2
+  | .ref r, bl, bh, base, h1, h2, hs, hb => by
+    unfold BoundsObj at hb; unfold InRangeObj; exact fun hf a ha j hj => hb hf a ha base h1 h2 j hj
 theorem inRangeList_of_bounds (sel : Object → Bool) (lo hi : Int) :
-    ∀ (os : List Object) (base : Int), NoRepeatedBlocksList os → BoundsList sel lo hi base os → InRangeList sel lo hi base os
-  | [], base, hn, hb => by unfold InRangeList; trivial
-  | o :: os, base, hn, hb => by
-    unfold NoRepeatedBlocksList at hn
+    ∀ (os : List Object) (bl bh base : Int), bl ≤ base → base ≤ bh → SmallCountsList os →
+      BoundsList sel lo hi bl bh os → InRangeList sel lo hi base os
+  | [], bl, bh, base, h1, h2, hs, hb => by unfold InRangeList; trivial
+  | o :: os, bl, bh, base, h1, h2, hs, hb => by
+    unfold SmallCountsList at hs
     unfold BoundsList at hb
     unfold InRangeList
-    exact ⟨inRange_of_bounds sel lo hi o base hn.1 hb.1, inRangeList_of_bounds sel lo hi os base hn.2 hb.2⟩
+    exact ⟨inRange_of_bounds sel lo hi o bl bh base h1 h2 hs.1 hb.1,
+           inRangeList_of_bounds sel lo hi os bl bh base h1 h2 hs.2 hb.2⟩
 end
 
 mutual
@@ -142,75 +137,71 @@ def checkKind (os : List Object) (t : Option Integer) (sel : Object → Bool) : 
   | some ty => ∃ mn mx, findMinMax os sel = .ok (mn, mx) ∧ ty.minValue ≤ mn ∧ mx ≤ ty.maxValue
 
 /-- **C13, the analysis (all definitions).** Whenever the min/max analysis returns, zero and every
-    instance of every selected object — taken at the sum of its enclosing blocks' offsets — lie
-    between the returned bounds. -/
+    instance of every selected object — at every combination of its own repeat index and the
+    repeat indices of its enclosing blocks — lie between the returned bounds. -/
 theorem analysis_covers_every_visited_instance (sel : Object → Bool) (hb : ∀ h os, sel (.block h os) = true)
     (os : List Object) (hs : SmallCountsList os) (mn mx : Int) (h : findMinMax os sel = .ok (mn, mx)) :
-    mn ≤ 0 ∧ 0 ≤ mx ∧ BoundsList sel mn mx 0 os :=
-  findMinMax_bounds sel hb os hs mn mx h
+    mn ≤ 0 ∧ 0 ≤ mx ∧ InRangeList sel mn mx 0 os := by
+  obtain ⟨h1, h2, h3⟩ := findMinMax_bounds sel hb os hs mn mx h
+  exact ⟨h1, h2, inRangeList_of_bounds sel mn mx os 0 0 0 (Int.le_refl _) (Int.le_refl _) hs h3⟩
 
 /-- **C13 at full strength**, as a predicate: an accepted check of kind `sel` with address type
     `ty` implies that every address the driver can compute for that kind fits `ty`. -/
 def Full (os : List Object) (ty : Integer) (sel : Object → Bool) : Prop :=
   checkKind os (some ty) sel → InRangeList sel ty.minValue ty.maxValue 0 os
 
-/-- **C13 (partial: no repeated blocks; block refs' targets not followed).** If the pass's check
-    for a kind succeeds, every address computed for a selected object fits the address type.
-    (Repeat counts below 2^63+1, which any count the front ends accept satisfies on 64-bit hosts
-    only through `u64 as i64`; see `SmallCount`.) -/
-theorem reachable_in_range_partial (sel : Object → Bool) (hb : ∀ h os, sel (.block h os) = true)
-    (os : List Object) (hs : SmallCountsList os) (hn : NoRepeatedBlocksList os) (ty : Integer) :
+/-- **C13 (the range analysis is sound, repeated blocks included).** If the pass's check for a kind
+    succeeds, every address computed for a selected object — for every index of the object and
+    every index of every enclosing repeated block — fits the address type. (What a block *ref*
+    places at its own offset is not followed by the analysis: finding F6b, outside `InRangeObj`.
+    Repeat counts below 2^63+1: see `SmallCount`.) Before the repair of finding F6a this held only
+    for definitions without repeated blocks. -/
+theorem reachable_in_range (sel : Object → Bool) (hb : ∀ h os, sel (.block h os) = true)
+    (os : List Object) (hs : SmallCountsList os) (ty : Integer) :
     Full os ty sel := by
   intro hc
   obtain ⟨mn, mx, hf, h1, h2⟩ := hc
-  have := (findMinMax_bounds sel hb os hs mn mx hf).2.2
-  exact inRangeList_widen sel mn mx _ _ h1 h2 os 0 (inRangeList_of_bounds sel mn mx os 0 hn this)
+  have := (analysis_covers_every_visited_instance sel hb os hs mn mx hf).2.2
+  exact inRangeList_widen sel mn mx _ _ h1 h2 os 0 this
 
 theorem selRegister_blocks (h : BlockHead) (os : List Object) : selRegister (.block h os) = true := rfl
 theorem selCommand_blocks (h : BlockHead) (os : List Object) : selCommand (.block h os) = true := rfl
 theorem selBuffer_blocks (h : BlockHead) (os : List Object) : selBuffer (.block h os) = true := rfl
 
-/-- F6a witness: a block repeated 2 × 100 holding a register at 50, register address type `i8`. -/
+/-- The former F6a witness: a block repeated 2 × 100 holding a register at 50, register address
+    type `i8`; `b(1).r()` computes 150. -/
 def f6aDevice : List Object :=
   [.block { name := "b", addressOffset := 0, repeat_ := some ⟨2, 100⟩ }
      [.register { name := "r", access := .rw, byteOrder := none, bitOrder := .lsb0, allowBitOverlap := false,
                   allowAddressOverlap := false, address := 50, sizeBits := 8, reset := none,
                   repeat_ := none, fields := [] }]]
 
-theorem f6a_accepted : findMinMax f6aDevice selRegister = .ok (0, 100) := by
+/-- After the repair of F6a the analysis reaches the instance at 150 … -/
+theorem f6a_now_analysed : findMinMax f6aDevice selRegister = .ok (0, 150) := by
   rfl
 
-/-- **The full statement is false of the unchanged code** (known finding F6a): the analysis sees
-    the block instances at 0 and 100 and the register at 50, accepts `i8`, and the driver's
-    `b(1).r()` computes 150. The implementation agrees with the model on this input (it is in the
-    C13 correspondence corpus), so this is a defect of the code, recorded rather than repaired. -/
-theorem full_counterexample : ¬ Full f6aDevice .i8 selRegister := by
-  intro h
-  have hc : checkKind f6aDevice (some .i8) selRegister := ⟨0, 100, f6a_accepted, by decide, by decide⟩
-  have := h hc
-  unfold f6aDevice InRangeList InRangeObj at this
-  have h1 := (this.1 1 (by decide)).2
-  unfold InRangeList InRangeObj at h1
-  have h2 := h1.1 rfl 0 (by decide)
-  revert h2
-  decide
+/-- … and the definition is rejected with the offending bound (it used to be accepted, and
+    `full_counterexample` proved `Full` false of the tree). -/
+theorem f6a_now_rejected :
+    checkAddrKind f6aDevice "register" (some .i8) selRegister =
+      .error (passErr "addr_too_high_register" [] [150, 127]) := by
+  rfl
 
-/-- Non-vacuity of the partial theorem: the same device without the block repeat is accepted and
-    in range. -/
-example : Full [.block { name := "b", addressOffset := 20, repeat_ := none }
+/-- Non-vacuity of `reachable_in_range`: a repeated block holding a repeated register, accepted
+    with `i8` and in range at every index combination (0 … 20 + 30 + 50 + 2·10 = 120). -/
+def okDevice : List Object :=
+  [.block { name := "b", addressOffset := 20, repeat_ := some ⟨2, 30⟩ }
      [.register { name := "r", access := .rw, byteOrder := none, bitOrder := .lsb0, allowBitOverlap := false,
                   allowAddressOverlap := false, address := 50, sizeBits := 8, reset := none,
-                  repeat_ := some ⟨3, 10⟩, fields := [] }]] .i8 selRegister :=
-  reachable_in_range_partial _ selRegister_blocks _
-    (by simp [SmallCountsList, SmallCounts, SmallCount, Object.repeat_])
-    (by simp [NoRepeatedBlocksList, NoRepeatedBlocks, cnt, Object.repeat_]) _
+                  repeat_ := some ⟨3, 10⟩, fields := [] }]]
 
-/-- … and its check does succeed (the hypothesis of `Full` is met): min 0, max 20 + 50 + 2·10. -/
-example : checkKind [.block { name := "b", addressOffset := 20, repeat_ := none }
-     [.register { name := "r", access := .rw, byteOrder := none, bitOrder := .lsb0, allowBitOverlap := false,
-                  allowAddressOverlap := false, address := 50, sizeBits := 8, reset := none,
-                  repeat_ := some ⟨3, 10⟩, fields := [] }]] (some .i8) selRegister :=
-  ⟨0, 90, rfl, by decide, by decide⟩
+example : Full okDevice .i8 selRegister :=
+  reachable_in_range _ selRegister_blocks _
+    (by simp [okDevice, SmallCountsList, SmallCounts, SmallCount, Object.repeat_]) _
+
+/-- … and its check does succeed (the hypothesis of `Full` is met). -/
+example : checkKind okDevice (some .i8) selRegister :=
+  ⟨0, 120, rfl, by decide, by decide⟩
 
 /-! ### The pass itself: acceptance and the error it reports -/
 
@@ -413,11 +404,11 @@ theorem internal_type_is_a_rust_integer (n : Names) (name : String) (d : Device)
 theorem internal_type_covers_every_visited_instance (n : Names) (name : String) (d : Device) (l : Lir)
     (hs : SmallCountsList d.objects) (h : lower n name d = .ok l) :
     (typeRange l.internalSigned l.internalBits).1 ≤ 0 ∧ 0 ≤ (typeRange l.internalSigned l.internalBits).2 ∧
-    BoundsList (fun _ => true) (typeRange l.internalSigned l.internalBits).1
+    InRangeList (fun _ => true) (typeRange l.internalSigned l.internalBits).1
       (typeRange l.internalSigned l.internalBits).2 0 d.objects := by
   obtain ⟨mn, mx, hmm, h1, h2⟩ := internal_type_covers_range d _ _ (lower_internal n name d l h)
-  obtain ⟨b1, b2, b3⟩ := findMinMax_bounds (fun _ => true) (fun _ _ => rfl) d.objects hs mn mx hmm
-  exact ⟨by omega, by omega, boundsList_mono _ mn mx _ _ h1 h2 d.objects 0 b3⟩
+  obtain ⟨b1, b2, b3⟩ := analysis_covers_every_visited_instance (fun _ => true) (fun _ _ => rfl) d.objects hs mn mx hmm
+  exact ⟨by omega, by omega, inRangeList_widen _ mn mx _ _ h1 h2 d.objects 0 b3⟩
 
 /-- Where the emitted arithmetic `self.base_address + ADDRESS (+|-) index as T * |STRIDE|`, evaluated
     left to right in the internal type `T = [lo, hi]`, agrees with the exact sum: exactly when the
